@@ -2854,7 +2854,14 @@ XPath::locationPathPattern(
 {
     eMatchScore score = eMatchScoreNone;
 
-    stepPattern(executionContext, &context, opPos + 2, score);
+    // The pattern ends at its terminating eENDOP...
+    stepPattern(
+        executionContext,
+        &context,
+        opPos + 2,
+        score,
+        opPos + 2,
+        getExpression().getNextOpCodePosition(opPos) - 1);
 
     return score;
 }
@@ -3108,12 +3115,17 @@ XPath::stepPattern(
             XPathExecutionContext&  executionContext,
             XalanNode*              context, 
             OpCodeMapPositionType   opPos,
-            eMatchScore&            scoreHolder) const
+            eMatchScore&            scoreHolder,
+            OpCodeMapPositionType   firstPos,
+            OpCodeMapPositionType   stopPos) const
 {
     const XPathExpression&  currentExpression = getExpression();
 
     const OpCodeMapPositionType     endStep = currentExpression.getNextOpCodePosition(opPos);
-    OpCodeMapValueType              nextStepType = currentExpression.getOpCodeMapValue(endStep);
+    OpCodeMapValueType              nextStepType =
+        endStep == stopPos ?
+            OpCodeMapValueType(XPathExpression::eENDOP) :
+            currentExpression.getOpCodeMapValue(endStep);
 
     bool    fDoPredicates = true;
 
@@ -3124,7 +3136,9 @@ XPath::stepPattern(
                         executionContext,
                         context,
                         endStep,
-                        scoreHolder);
+                        scoreHolder,
+                        firstPos,
+                        stopPos);
 
         if(0 == context)
         {
@@ -3240,71 +3254,9 @@ XPath::stepPattern(
             {
                 score = eMatchScoreOther;
             }
-            else
-            {
-                const OpCodeMapPositionType     prevPos = currentExpression.getNextOpCodePosition(startOpPos);      
-                const OpCodeMapValueType        prevStepType = currentExpression.getOpCodeMapValue(prevPos);
-
-                if (eMatchScoreNone == score  && 
-                    (prevStepType == XPathExpression::eMATCH_ANY_ANCESTOR ||
-                     prevStepType == XPathExpression::eMATCH_ANY_ANCESTOR_WITH_PREDICATE))
-                {
-                    const NodeTester    theTester(
-                                    *this,
-                                    executionContext,
-                                    opPos,
-                                    argLen,
-                                    stepType);
-
-                    // The any-ancestor step took the nearest ancestor
-                    // that satisfies it, and that one is not a child of
-                    // the root.  The only ancestor that can be a child of
-                    // the root is the top-level one, so the pattern matches
-                    // exactly when that node satisfies the step as well.
-                    XalanNode*  theTop = context;
-                    XalanNode*  theRoot = DOMServices::getParentOfNode(*theTop);
-
-                    while(0 != theRoot &&
-                          eMatchScoreNone == theTester(*theRoot, theRoot->getNodeType()))
-                    {
-                        theTop = theRoot;
-
-                        theRoot = DOMServices::getParentOfNode(*theTop);
-                    }
-
-                    if (0 != theRoot)
-                    {
-                        const OpCodeMapValueType    prevArgLen =
-                            currentExpression.getOpCodeArgumentLength(prevPos);
-
-                        eMatchScore     theTopScore =
-                            NodeTester(
-                                *this,
-                                executionContext,
-                                prevPos + 3,
-                                prevArgLen,
-                                prevStepType)(*theTop, theTop->getNodeType());
-
-                        if (eMatchScoreNone != theTopScore)
-                        {
-                            theTopScore =
-                                doStepPredicate(
-                                    executionContext,
-                                    theTop,
-                                    prevPos + 3 + prevArgLen,
-                                    prevPos,
-                                    theTopScore);
-                        }
-
-                        if (eMatchScoreNone != theTopScore)
-                        {
-                            score = eMatchScoreOther;
-
-                            context = theRoot;
-                        }
-                    }
-                }
-            }
+            // Otherwise there is no match: when the next step is an
+            // any-ancestor step, it only accepts an ancestor whose parent
+            // is the root (see eMATCH_ANY_ANCESTOR below).
         }
         break;
 
@@ -3348,6 +3300,35 @@ XPath::stepPattern(
                                     argLen,
                                     stepType);
 
+                // The steps to the left of this one are matched by our
+                // callers, starting from the parent of the ancestor we
+                // return.  If the step to our left must match that parent
+                // itself (it is not followed by '//'), the nearest ancestor
+                // that satisfies this step is not necessarily the one the
+                // pattern needs ("c/a//b" and <c><a><y><a><b/></a></y></a></c>),
+                // so an ancestor is only accepted if the steps to the left
+                // match from its parent.  When the step to our left can match
+                // any ancestor as well, the nearest one is always good enough.
+                bool    fCheckLeft = false;
+
+                if (startOpPos != firstPos)
+                {
+                    OpCodeMapPositionType   leftPos = firstPos;
+
+                    while(currentExpression.getNextOpCodePosition(leftPos) != startOpPos)
+                    {
+                        leftPos = currentExpression.getNextOpCodePosition(leftPos);
+                    }
+
+                    const OpCodeMapValueType    leftStepType =
+                        currentExpression.getOpCodeMapValue(leftPos);
+
+                    fCheckLeft =
+                        leftStepType != XPathExpression::eMATCH_ANY_ANCESTOR &&
+                        leftStepType != XPathExpression::eMATCH_ANY_ANCESTOR_WITH_PREDICATE &&
+                        leftStepType != XPathExpression::eMATCH_ANY_ANCESTOR_WITH_FUNCTION_CALL;
+                }
+
                 for(;;)
                 {
                     // A document node is not the child of any node, so
@@ -3367,6 +3348,31 @@ XPath::stepPattern(
                                 opPos + argLen,
                                 startOpPos,
                                 score);
+
+                        if (eMatchScoreNone != score && fCheckLeft == true)
+                        {
+                            XalanNode* const    theParent =
+                                DOMServices::getParentOfNode(*context);
+
+                            eMatchScore         theLeftScore = eMatchScoreNone;
+
+                            if (theParent != 0)
+                            {
+                                stepPattern(
+                                    executionContext,
+                                    theParent,
+                                    firstPos,
+                                    theLeftScore,
+                                    firstPos,
+                                    startOpPos);
+                            }
+
+                            if (eMatchScoreNone == theLeftScore)
+                            {
+                                score = eMatchScoreNone;
+                            }
+                        }
+
                         if (eMatchScoreNone != score)
                         {
                             break;
